@@ -3,9 +3,11 @@ sys.path.insert(0, '/verif')
 import pkgutil, contracts; mods = ['contracts.'+m.name for m in pkgutil.iter_modules(contracts.__path__)]
 for m in mods: importlib.import_module(m)
 from pyvc.harness import UNITS, run_unit
-pat = sys.argv[1] if len(sys.argv) > 1 else ''
+pat = sys.argv[1] if len(sys.argv) > 1 else ""
+exact = pat.startswith("=")
+pat = pat[1:] if exact else pat
 for name, un in UNITS.items():
-    if pat and pat not in name: continue
+    if pat and ((name != pat) if exact else (pat not in name)): continue
     r = run_unit(un)
     print(f"== {name}: {r.status} paths={r.paths} infeasible={r.infeasible} t={r.time_s:.2f}s {r.message[:1500]}")
     for s, d in r.sites.items():
